@@ -3,6 +3,7 @@ package c03
 import (
 	"bytes"
 	"fmt"
+	"os"
 	"strings"
 	"time"
 
@@ -83,7 +84,7 @@ func checkReaders(s Src, ctx *vcommon.Ctx) *vcommon.Failure {
 	}
 	key := srcKey(s)
 	if s.R != nil {
-		for _, k := range []string{"reader-wedge/" + key, "death/stack-overflow/" + key} {
+		for _, k := range []string{"reader-wedge/" + key, "reader-death/stack-overflow/" + key} {
 			if ctx.Known(k) {
 				ctx.Class("excluded-known/" + k)
 				return nil
@@ -91,7 +92,7 @@ func checkReaders(s Src, ctx *vcommon.Ctx) *vcommon.Failure {
 		}
 		journal("readers-unlimited", s)
 	}
-	return isolated("readers-unlimited", s, key, ctx)
+	return isolated("readers-unlimited", s, func(kind, fam string) string { return "reader-" + kind + "/" + key }, ctx)
 }
 
 func checkReadersInner(s Src, ctx recorder, wd, wdAlone time.Duration) *vcommon.Failure {
@@ -139,4 +140,36 @@ func checkReadersInner(s Src, ctx recorder, wd, wdAlone time.Duration) *vcommon.
 		}
 	}
 	return nil
+}
+
+// enumReaderMatrix: every nesting unit and every long-token shape at the
+// parser's depth boundary and at the 10^6 extreme (thorough: more sizes).
+func enumReaderMatrix(shard, nshards int, emit func(Src) bool) {
+	sizes := []int{10001, 1000000}
+	if os.Getenv("VERIF_TIER") == "thorough" {
+		sizes = []int{64, 9999, 10000, 10001, 100000, 1000000}
+	}
+	i := 0
+	out := func(r Recipe) bool {
+		i++
+		if (i-1)%nshards != shard {
+			return true
+		}
+		rr := r
+		return emit(Src{Class: "hostile", R: &rr})
+	}
+	for v := range nestUnits {
+		for _, n := range sizes {
+			if !out(Recipe{T: "nest", V: v, N: n}) {
+				return
+			}
+		}
+	}
+	for v := 0; v < 10; v++ {
+		for _, n := range sizes {
+			if !out(Recipe{T: "long", V: v, N: n}) {
+				return
+			}
+		}
+	}
 }
